@@ -17,7 +17,7 @@ class CallMixin:
                 and isinstance(f.value.func, ast.Name) and f.value.func.id == 'super':
             return self.call_super(e)
         # spec special forms
-        if isinstance(f, ast.Name) and f.id in ('old', 'forall_int', 'exists_int') and self.spec_mode:
+        if isinstance(f, ast.Name) and f.id in ('old', 'forall_int', 'exists_int', 'implies') and self.spec_mode:
             return self.spec_special(e)
         fv = self.eval(f)
         args = []
@@ -252,8 +252,10 @@ class CallMixin:
         """Fork over the members of a symbolic EnumV; returns a concrete EnumV."""
         if ev.concrete:
             return ev
-        vals = sorted(set(self.enum_info(ev.cls).values()))
-        i = self.choose([ev.val == x for x in vals], label)
+        info = self.enum_info(ev.cls)
+        vals = sorted(set(info.values()))
+        names = [[k for k, v in info.items() if v == x][0] for x in vals]
+        i = self.choose([ev.val == x for x in vals], label, names)
         return EnumV(ev.cls, vals[i])
 
     # ------------------------------------------------------------------
